@@ -120,6 +120,23 @@ def gen_block(rng, nfields=None, tiny=False, small_tail=False, coinbase=None):
     return _finish(fields, nfields, cb_hash)
 
 
+def same_header_other_coinbase(rng, h):
+    """the header h (19 / 20 fields) with everything the block hash covers unchanged, and
+    another merge-mining merkle proof and coinbase transaction behind it (what a miner
+    submits several times for one block): same block hash, another coinbase hash"""
+    assert h["nfields"] in (19, 20)
+    fields = list(h["fields"])
+    comp, cb_hash = gen_coinbase(rng)
+    while comp == fields[-1]:
+        comp, cb_hash = gen_coinbase(rng)
+    fields[-1] = comp
+    if rng.random() < 0.5:
+        fields[-2] = rng.randbytes(32 * rng.randint(0, 6))
+    out = _finish(fields, h["nfields"], cb_hash)
+    assert out["hash"] == h["hash"] and out["raw"] != h["raw"]
+    return out
+
+
 _FIXTURES = None
 
 
